@@ -150,12 +150,15 @@ class FileWrapper:
             self.filelike.close()
 
 
-def drive_wsgi(app, env, abandon_after=None):
+def drive_wsgi(app, env, abandon_after=None, catch=None):
     """Play the server.  Returns the record of everything the server observed.
 
-    abandon_after=k: the server stops after k chunks (client went away / its write failed) - it still owes close()."""
+    abandon_after=k: the server stops after k chunks (client went away / its write failed) - it still owes close().
+    catch: further BaseException-only classes that the application's stream may raise on purpose (they are recorded like
+    an Exception; an exception raised by close() on the iterable is then recorded as rec['close_exc'] instead of propagating)."""
     rec = {'start': [], 'order': [], 'chunks': [], 'app_exc': None, 'iter_exc': None, 'returned': None,
-           'closed_iterable': 0, 'complete': False, 'writes': 0}
+           'closed_iterable': 0, 'complete': False, 'writes': 0, 'close_exc': None}
+    caught = (Exception,) + tuple(catch or ())
 
     def start_response(status, headers, exc_info=None):
         rec['start'].append((status, headers, exc_info))
@@ -182,7 +185,7 @@ def drive_wsgi(app, env, abandon_after=None):
                         break
                 else:
                     rec['complete'] = True
-        except Exception as e:  # noqa
+        except caught as e:  # noqa
             rec['iter_exc'] = e
     finally:
         # PEP 3333: "If the iterable returned by the application has a close() method, the server or gateway must
@@ -191,7 +194,13 @@ def drive_wsgi(app, env, abandon_after=None):
         close = getattr(it, 'close', None)
         if close is not None:
             rec['closed_iterable'] += 1
-            close()
+            if catch is None:
+                close()
+            else:
+                try:
+                    close()
+                except caught as e:  # noqa
+                    rec['close_exc'] = e
     return rec
 
 
@@ -320,6 +329,56 @@ async def drive_asgi(app, scope, events, send_fail_at=None, timeout=2.0, disconn
         rec['hang'] = True
     except Exception as e:  # noqa
         rec['app_exc'] = e
+    return rec
+
+
+async def drive_asgi_task(app, scope, events, send_fail_at=None, send_exc=None, cancel_at_send=None, timeout=2.0):
+    """drive_asgi with the application running in a task of its own, as under a real server, and more ways for the server side to
+    end the exchange: the k-th send() raises `send_exc` (any BaseException class; default OSError), or - cancel_at_send=k - the
+    server cancels the application's task while it is suspended in its k-th send() (client disconnect / shutdown).
+    Whatever leaves the application - BaseException-only classes included - is recorded in rec['app_exc']."""
+    rec = {'attempts': [], 'sent': [], 'app_exc': None, 'hang': False, 'send_failed': False, 'complete': False,
+           'receives': 0, 'cancelled': False}
+    q = list(events)
+    loop = asyncio.get_running_loop()
+    never = loop.create_future()
+    box = {}
+
+    async def receive():
+        rec['receives'] += 1
+        if q:
+            return q.pop(0)
+        await never  # a live client that sends nothing more
+
+    async def send(msg):
+        idx = len(rec['attempts'])
+        rec['attempts'].append(msg)
+        if send_fail_at is not None and idx == send_fail_at:
+            rec['send_failed'] = True
+            raise (send_exc or OSError)('send failed: peer went away')
+        if cancel_at_send is not None and idx == cancel_at_send:
+            rec['send_failed'] = True                  # the event is not delivered
+            fut = loop.create_future()                 # (the transport's drain the server would be waiting on)
+            loop.call_soon(box['task'].cancel)
+            await fut
+        rec['sent'].append(msg)
+
+    task = box['task'] = asyncio.ensure_future(app(scope, receive, send))
+    done, pending = await asyncio.wait({task}, timeout=timeout)
+    if pending:
+        rec['hang'] = True
+        task.cancel()
+        await asyncio.wait({task}, timeout=1.0)
+        return rec
+    if task.cancelled():
+        rec['cancelled'] = True
+        rec['app_exc'] = asyncio.CancelledError()
+        return rec
+    exc = task.exception()
+    if exc is None:
+        rec['complete'] = True
+    else:
+        rec['app_exc'] = exc
     return rec
 
 
